@@ -480,6 +480,11 @@ func (s *Session) checkPermission(right auth.AccessRight) bool {
 		return true
 	}
 
+	if s.wsconn != nil && s.wsAuthed {
+		// websocket 接入的用户在升级时由 http 层验证；此后用户可能已被删除或重建，按当前用户表判断
+		s.user = auth.Get(s.wsconn.Username())
+	}
+
 	if s.user == nil {
 		return false
 	}
